@@ -16,7 +16,7 @@ func init() {
 			"R2 tiling by value identity in nextToken: every cursor-advancing call (skipSpaces, skipComment, consumeToken/consumeFieldToken) is bracketed by two loads of Lexer.pos that are the bounds of exactly one slice of Buffer stored into Space / a comment's Raw / Token.Raw, with exactly that one advancing call between the loads; Pos/End stored next to each slice are loads in the same cursor epoch as its bounds. Cursor moves only inside those calls (R1), so the slices tile the input. " +
 			"R3 the eof() arm of consumeToken only sets Kind = <eof> and advances nothing. R4 every other return path of consumeToken passes a cursor advance; lexer loops make progress (C03/R4, shared). " +
 			"Does not decide: that a computed advance is strictly positive, that Space holds only whitespace (numeric / character facts).",
-		Rules: []ruleFn{ruleC13R1, ruleC13R4, ruleC13R3, ruleC03R4},
+		Rules: []ruleFn{ruleC13R1, ruleC13R4, ruleC13R3, ruleC03R4, ruleC14R9},
 	})
 }
 
@@ -65,6 +65,89 @@ func (w *World) Advancing() map[*ssa.Function]bool {
 	}
 	w.advancing = adv
 	return adv
+}
+
+// MustAdvancing: functions that call skip/skipN on every path from entry to a return (least fixed point from
+// skip and skipN through static calls). leak[fn] is a return of fn reached without such a call.
+func (w *World) MustAdvancing() (map[*ssa.Function]bool, map[*ssa.Function]*ssa.BasicBlock) {
+	if w.mustAdv != nil {
+		return w.mustAdv, w.mustAdvLeak
+	}
+	w.NoReturn()
+	must := map[*ssa.Function]bool{}
+	for _, fn := range w.ModFns {
+		if fn.Signature.Recv() != nil && w.isLexerPtr(fn.Signature.Recv().Type()) && (fn.Name() == "skip" || fn.Name() == "skipN") {
+			must[fn] = true
+		}
+	}
+	leak := map[*ssa.Function]*ssa.BasicBlock{}
+	isMust := func(in ssa.Instruction) bool {
+		ci, ok := in.(ssa.CallInstruction)
+		if !ok {
+			return false
+		}
+		if _, isDefer := in.(*ssa.Defer); isDefer {
+			return false
+		}
+		cs := w.Callees(ci)
+		if len(cs) == 0 {
+			return false
+		}
+		for _, c := range cs {
+			if !must[c] {
+				return false
+			}
+		}
+		return true
+	}
+	for changed := true; changed; {
+		changed = false
+		for _, fn := range w.ModFns {
+			if must[fn] || !w.Advancing()[fn] || fn.Blocks == nil {
+				continue
+			}
+			ok, any := true, false
+			for _, rb := range fn.Blocks {
+				if _, isRet := rb.Instrs[len(rb.Instrs)-1].(*ssa.Return); !isRet {
+					continue
+				}
+				any = true
+				if w.pathAvoiding(fn.Blocks[0], rb, isMust) {
+					ok = false
+					leak[fn] = rb
+					break
+				}
+			}
+			if ok && any {
+				must[fn] = true
+				delete(leak, fn)
+				changed = true
+			}
+		}
+	}
+	w.mustAdv, w.mustAdvLeak = must, leak
+	return must, leak
+}
+
+func (w *World) isMustAdvancingCall(in ssa.Instruction) bool {
+	ci, ok := in.(ssa.CallInstruction)
+	if !ok {
+		return false
+	}
+	if _, isDefer := in.(*ssa.Defer); isDefer {
+		return false
+	}
+	must, _ := w.MustAdvancing()
+	cs := w.Callees(ci)
+	if len(cs) == 0 {
+		return false
+	}
+	for _, c := range cs {
+		if !must[c] {
+			return false
+		}
+	}
+	return true
 }
 
 func (w *World) isAdvancingCall(in ssa.Instruction) bool {
@@ -591,7 +674,7 @@ func (w *World) lexerFieldOrEmbedded(v ssa.Value) (string, ssa.Value, bool) {
 
 func ruleC13R3(w *World, r *Report) {
 	const rule = "C13/R3"
-	r.rule(rule, "consumeToken: on the eof() edge only Kind = <eof> is stored and nothing advances (end of input is a fixed point); on every other path to a return a cursor advance is passed", 2)
+	r.rule(rule, "consumeToken: on the eof() edge only Kind = <eof> is stored and nothing advances (end of input is a fixed point); on every other path to a return a call is passed that advances the cursor on all of its own return paths (skip, skipN, or a token reader all of whose returns pass one)", 2)
 	fn := w.fn(w.Mem, "(*Lexer).consumeToken")
 	if fn == nil {
 		r.errorf("(*Lexer).consumeToken not found")
@@ -647,9 +730,23 @@ func ruleC13R3(w *World, r *Report) {
 		if _, isRet := rb.Instrs[len(rb.Instrs)-1].(*ssa.Return); !isRet || rb == b0.Succs[0] {
 			continue
 		}
-		if w.pathAvoiding(b0.Succs[1], rb, w.isAdvancingCall) {
+		if w.pathAvoiding(b0.Succs[1], rb, w.isMustAdvancingCall) {
 			leak = true
-			r.bad(rule, "consumeToken progress", w.pos(lastPos(rb)), "a path from the non-eof side reaches this return without advancing the cursor: an empty token")
+			detail := "a path from the non-eof side reaches this return without advancing the cursor: an empty token"
+			// name the token reader that can return without advancing
+			_, leaks := w.MustAdvancing()
+			for _, bb := range fn.Blocks {
+				for _, in := range bb.Instrs {
+					if ci, ok := in.(ssa.CallInstruction); ok && w.isAdvancingCall(in) && !w.isMustAdvancingCall(in) {
+						for _, c := range w.Callees(ci) {
+							if lb := leaks[c]; lb != nil && (bb == rb || w.pathAvoiding(bb, rb, w.isMustAdvancingCall)) {
+								detail += fmt.Sprintf("; %s (called at %s) can return at %s without having called skip/skipN", funcName(c), w.pos(in.Pos()), w.pos(lastPos(lb)))
+							}
+						}
+					}
+				}
+			}
+			r.bad(rule, "consumeToken progress", w.pos(lastPos(rb)), detail+" — in recovering mode the parser's skip loops then never reach <eof>")
 		}
 	}
 	if !leak {
